@@ -106,7 +106,7 @@ func r10_1(r *Report, p *Program, entries []syncEntry) {
 					return true
 				}
 				rt, isR := in.(*ssa.Return)
-				return isR && !engine.ReturnsFreshError(rt)
+				return isR && !isErrReturn(rt)
 			}}).Find(); w != nil {
 				ok, why = false, "after a failed finalizer sync the function goes on to "+p.InstrPos(w.Instr)
 			}
